@@ -32,7 +32,7 @@ ASSUMPTIONS = [
     "endpoints only acknowledge wire IDs they have actually been shown; injection windows are the default size (no eviction within a history)",
     "a dropped PacketAck's body is not covered by the property (only piggy-backed acks of dropped packets are), so drops are applied to ordinary packets",
 ]
-EXHAUSTIVE_PARTS = {"quick": ["all sequences of 17 concrete events to depth 6"], "thorough": ["all sequences of 17 concrete events to depth 7"]}
+EXHAUSTIVE_PARTS = {"quick": ["all sequences of 18 concrete events to depth 6"], "thorough": ["all sequences of 18 concrete events to depth 7"]}
 FLOORS = {"quick": {"h_nontrivial": 3000, "ev_tick": 2000, "inj_completed": 500, "inj_timed_out": 8, "acks_for_injected_filtered": 500}}
 MANIFEST = {
     "text": "Bounded-exhaustive enumeration of event sequences plus long random walks on the real proxied circuit, each emission "
@@ -187,7 +187,7 @@ class Harness:
                 self.flags.add("inj_completed")
 
     # -- events: return list of violations --
-    def ev_send(self, side, reliable, ackmode, packetack=False, body_mode=None, drop=False, resend=False):
+    def ev_send(self, side, reliable, ackmode, packetack=False, body_mode=None, drop=False, resend=False, retake=False):
         out = []
         dm = self.dirs[side]
         other = OTHER[side]
@@ -250,6 +250,30 @@ class Harness:
                 if not any(p["wire"] == wire for p in self.shown[other]):
                     self.shown[other].append({"wire": wire, "kind": "real", "reliable": reliable, "orig": o})
         out.extend(self._check_emissions(exp_to, required, allow_proxy_acks=side if drop else None))
+        if retake and not out:
+            # an addon drops the packet first and only then takes a copy and sends that on: the piggy-backed acks went out with
+            # the drop already, the copy is a packet of the proxy's own and carries none
+            try:
+                copy = msg.take()
+                self.c.emitted.clear()
+                self.c.send(copy)
+            except Exception as e:
+                return [("retake:raises:%s" % type(e).__name__, "take()+send of a dropped packet raised %r" % (e,))]
+            em = list(self.c.emitted)
+            if len(em) != 1:
+                return [("retake:emissions", "re-sending the taken copy produced %d emissions" % len(em))]
+            e = em[0]
+            if e["pid"] is None or e["pid"] <= dm.max_wire or e["pid"] in dm.I:
+                out.append(("retake:id", "re-sent copy used id %r (highest seen %d)" % (e["pid"], dm.max_wire)))
+            else:
+                dm.I.append(e["pid"])
+                dm.I.sort()
+                dm.max_wire = e["pid"]
+                self.shown[other].append({"wire": e["pid"], "kind": "injected", "reliable": False})
+            self.flags.add("retake")
+            out.extend(self._check_emissions({V: Counter(), S: Counter()},
+                                             [{"dir": DIR_FROM[side], "pid": e["pid"], "name": name, "reliable": False, "resent": False}],
+                                             allow_proxy_acks=False))
         return out
 
     def ev_inject(self, toward, reliable):
@@ -394,6 +418,8 @@ class Harness:
             r = self.ev_send(ev[1], False, ev[3], packetack=True, body_mode=ev[2])
         elif kind == "drop":
             r = self.ev_send(ev[1], ev[2], ev[3], drop=True)
+        elif kind == "retake":
+            r = self.ev_send(ev[1], False, ev[2], drop=True, retake=True)
         elif kind == "resend":
             r = self.ev_send(ev[1], True, "none", resend=True)
         elif kind == "inject":
@@ -433,7 +459,7 @@ ALPHABET = [
     ("pack", V, "injonly", "realonly"), ("pack", S, "injonly", "realonly"),
     ("inject", V, True), ("inject", S, True), ("inject", S, False),
     ("drop", V, True, "all"), ("drop", S, True, "mix"),
-    ("tick", 3.1), ("resend", V),
+    ("tick", 3.1), ("resend", V), ("retake", S, "mix"),
 ]
 
 
@@ -462,6 +488,7 @@ def shards(tier):
     for i in range(16):
         sh.append({"kind": "walk", "n": 1200 if th else 150, "maxsteps": 200 if th else 60})
     sh.append({"kind": "budget"})
+    sh.append({"kind": "proxy_path"})
     return sh
 
 
@@ -498,6 +525,7 @@ EV = st.one_of(
               st.sampled_from(["none", "none", "realonly", "mix", "injonly"])),
     st.tuples(st.just("drop"), st.sampled_from([V, S]), st.booleans(), st.sampled_from(["none", "all", "mix"])),
     st.tuples(st.just("resend"), st.sampled_from([V, S])),
+    st.tuples(st.just("retake"), st.sampled_from([V, S]), st.sampled_from(["all", "mix", "oldest"])),
     st.tuples(st.just("inject"), st.sampled_from([V, S]), st.booleans()),
     st.tuples(st.just("inject"), st.sampled_from([V, S]), st.just(True)),
     st.tuples(st.just("tick"), st.sampled_from([3.1, 3.1, 1.0, 6.5, 3.0])),
@@ -538,8 +566,28 @@ def _budget(ctx):
                 ctx.fail("budget:model", "model transmitted %d times" % rec["tx"], {"events": [list(e) for e in evs], "wire": False})
 
 
+def _proxy_path(ctx):
+    """the same ack bookkeeping one level up: through InterceptingLLUDPProxyProtocol.handle_proxied_packet with addons that claim,
+    drop, take or fail on the very message that carries the ack for a reliable packet of the proxy's own (C07's harness; only its
+    bookkeeping / ack verdicts are used here)"""
+    from checks import c07
+    n = 0
+    for b in c07.B_LLUDP:
+        for sub in ("absent", "take_async", "raise"):
+            for stream in (["s2v_rel_acks", "v2s_rel"], ["v2s_rel", "s2v_rel_acks"]):
+                prog = {"addons": [{"lludp": b, "session_sub": sub}], "messages": stream}
+                res, _ = c07.run_program(prog)
+                n += 1
+                res = [(sig, msg) for sig, msg in res if sig.startswith(("bookkeeping:", "drop-ack-count"))]
+                if res:
+                    ctx.report({"proxy_path": prog}, res)
+    ctx.bulk(n, n, {"proxy_path_programs": n}, {"proxy_path": {"addons": [{"lludp": "true"}], "messages": ["s2v_rel_acks", "v2s_rel"]}})
+
+
 def run_shard(ctx, shard):
-    if shard["kind"] == "enum":
+    if shard["kind"] == "proxy_path":
+        _proxy_path(ctx)
+    elif shard["kind"] == "enum":
         _enum(ctx, shard["prefix"], shard["depth"])
     elif shard["kind"] == "walk":
         hyp_run(ctx, WALK, _walk_body(ctx, shard["maxsteps"]), shard["n"])
@@ -548,6 +596,10 @@ def run_shard(ctx, shard):
 
 
 def replay(ctx, case):
+    if isinstance(case, dict) and "proxy_path" in case:
+        from checks import c07
+        res, _ = c07.run_program(case["proxy_path"])
+        return [(sig, msg) for sig, msg in res if sig.startswith(("bookkeeping:", "drop-ack-count"))]
     if not isinstance(case, dict):
         case = {"wire": case[0], "events": case[1]}
     h = Harness(wire=case.get("wire", False))
